@@ -61,6 +61,7 @@ var contractNames = map[string]constant.BoltContractAddress{
 }
 
 type world struct {
+	pending []*step // seeding steps since the last block (re-applied right before the next block, see doStep)
 	c       *hx.Chain
 	nonces  map[string]uint64 // next nonce per sender spec
 	rev     map[string]string // lower-case address -> spec
@@ -570,6 +571,29 @@ func (w *world) counter(m map[string]*pb.VerifiedIndexSlice) [][]interface{} {
 }
 
 func (w *world) doStep(s *step) map[string]interface{} {
+	switch s.Op {
+	case "seed_chain", "drop_chain", "seed_service", "fund", "set_code", "set_wasm_rule", "set_state":
+		w.pending = append(w.pending, s)
+	case "block":
+		// The executed event of the previous block is posted BEFORE the executor's trailing
+		// ledger.Clear(); a seeding write made right after the event can be wiped by it.  Let the
+		// executor goroutine finish, then write the (idempotent) seeds again.
+		if len(w.pending) > 0 {
+			time.Sleep(25 * time.Millisecond)
+			p := w.pending
+			w.pending = nil
+			for _, ps := range p {
+				w.doStep1(ps)
+			}
+			w.pending = nil
+		}
+	case "restart":
+		w.pending = nil
+	}
+	return w.doStep1(s)
+}
+
+func (w *world) doStep1(s *step) map[string]interface{} {
 	c := w.c
 	out := map[string]interface{}{"op": s.Op}
 	switch s.Op {
